@@ -770,10 +770,30 @@ func (m *Manager) GetStats() (*NATStats, error) {
 	}
 
 	var key uint32 = 0
-	var stats NATStats
 
-	if err := m.natStats.Lookup(&key, &stats); err != nil {
+	// nat_stats_map is a per-CPU array: a lookup returns one value per possible
+	// CPU, which have to be added up.
+	var perCPU []NATStats
+	if err := m.natStats.Lookup(&key, &perCPU); err != nil {
 		return nil, err
+	}
+
+	var stats NATStats
+	for i := range perCPU {
+		c := &perCPU[i]
+		stats.PacketsSNAT += c.PacketsSNAT
+		stats.PacketsDNAT += c.PacketsDNAT
+		stats.PacketsHairpin += c.PacketsHairpin
+		stats.PacketsDropped += c.PacketsDropped
+		stats.PacketsPassed += c.PacketsPassed
+		stats.SessionsCreated += c.SessionsCreated
+		stats.SessionsExpired += c.SessionsExpired
+		stats.PortExhaustion += c.PortExhaustion
+		stats.EIMHits += c.EIMHits
+		stats.EIMMisses += c.EIMMisses
+		stats.ALGTriggers += c.ALGTriggers
+		stats.ConntrackLookups += c.ConntrackLookups
+		stats.ConntrackHits += c.ConntrackHits
 	}
 
 	return &stats, nil
